@@ -92,8 +92,33 @@ NONFINITE = [
     'let big = 2e308\nfrom t | derive {y = big}',
 ]
 
+
+# literal-edge family: values at the boundaries of what a JSON number / string carries
+INT_EDGES = [2**53 - 1, 2**53, 2**53 + 1, 2**53 + 3, 9007199254740993, 2**62 + 1, 2**63 - 2, 2**63 - 1025,
+             1234567890123456789, 999999999999999999, 4611686018427387905, 72057594037927937, 2**31, 2**32 + 1, 10**15 + 1, 10**16 + 1, 10**17 + 3]
+FLOAT_EDGES = ["0.1", "0.30000000000000004", "1.7976931348623157e308", "5e-324", "123456789.12345678", "9007199254740993.0",
+               "1e22", "1e23", "2.2250738585072014e-308", "0.000001", "1e-7", "3.0", "100.0"]
+STRING_EDGES = ['""', '"\\u{1F600}"', '"a\\"b"', '"tab\\tnl\\n"', "'single \" quote'", '"' + "x" * 300 + '"', '"null"', '"é ü ß 漢字"', 'r"raw \\ slash"']
+
+
+def literal_edge_programs(rng, n):
+    out = []
+    for v in INT_EDGES:
+        out.append("from accounts | filter id == %d | select {id, owner}" % v)
+        out.append("from t | derive {x = %d, y = -%d} | take %d" % (v, v, min(v, 2**62)))
+    for f in FLOAT_EDGES:
+        out.append("from t | derive {x = %s, y = a * %s}" % (f, f))
+    for s in STRING_EDGES:
+        out.append("from t | derive {s = %s} | filter name == %s" % (s, s))
+    for _ in range(n):
+        digits = rng.choice([16, 17, 18, 19])
+        v = rng.randrange(10 ** (digits - 1), min(10 ** digits, 2**63))
+        out.append("from t | filter k == %d | derive {z = %d + a}" % (v, v - rng.randrange(1, 1000)))
+        out.append("from [{a = %d, b = %d}] | select {b, a}" % (v, rng.randrange(2**53, 2**63)))
+    return out
+
 _OPS = ["*", "//", "/", "%", "**", "+", "-", "==", "!=", ">", "<", ">=", "<=", "&&", "||", "??"]
-_LITS = ["1", "0", "42", "2.5", "0.001", "1e10", "true", "false", "null", '"s"', '"a b"', "@2021-03-04", "@12:00", "3days", "1weeks", 'r"x\\y"']
+_LITS = ["1", "0", "42", "9007199254740993", "1234567890123456789", "2.5", "0.001", "1e10", "true", "false", "null", '"s"', '"a b"', "@2021-03-04", "@12:00", "3days", "1weeks", 'r"x\\y"']
 _COLS = ["a", "b", "c", "t.a", "`my col`", "this.b"]
 
 
